@@ -33,6 +33,7 @@ func c14Stampede(r *Result, rng *rand.Rand, rounds int) {
 			ops[t] = c14Op{"use", 0, rng.Intn(nq)}
 		}
 		w := newC14World(1, ops, false)
+		w.shape = i % c14NShapes() // which SQL texts stand behind the text indexes: the cache must not care
 		barrier := make(chan struct{})
 		var wg sync.WaitGroup
 		for t := range ops {
@@ -49,7 +50,7 @@ func c14Stampede(r *Result, rng *rand.Rand, rounds int) {
 		close(barrier)
 		done := make(chan struct{})
 		go func() { wg.Wait(); close(done) }()
-		in := map[string]interface{}{"goroutines": n, "texts": nq, "round": i}
+		in := map[string]interface{}{"goroutines": n, "texts": nq, "round": i, "text_shape": c14ShapeName(w.shape)}
 		select {
 		case <-done:
 		case <-time.After(wait):
